@@ -251,6 +251,41 @@ func GenDef(t *rapid.T, o GenOpts) Def {
 		}
 	}
 
+	// twins: the same promise kind over two message types that share their
+	// base name (file-local X and imported X); the templates derive the promise
+	// type's name from the base name alone
+	if d.Dep != nil && !noMethods {
+		var shared []string
+		for _, dm := range d.Dep.Messages {
+			for _, lm := range f.Messages {
+				if dm.Name == lm.Name {
+					shared = append(shared, dm.Name)
+				}
+			}
+		}
+		if len(shared) > 0 && chance(t, 60, "twins") {
+			x := shared[rapid.IntRange(0, len(shared)-1).Draw(t, "twinType")]
+			kind := rapid.SampledFrom([]string{"async", "correctable", "correctablestream", "quorumcall"}).Draw(t, "twinKind")
+			names := pickDistinct(t, ordMethodNames, 2, goMethodNames(f.Services[0]), "twinMeth")
+			if len(names) == 2 {
+				for i, out := range []string{x, "." + d.Dep.Package + "." + x} {
+					m := Method{Name: names[i], In: types[0].ref, Out: out}
+					switch kind {
+					case "async":
+						m.Quorumcall, m.Async = true, true
+					case "correctable":
+						m.Correctable = true
+					case "correctablestream":
+						m.Correctable, m.ServerStream = true, true
+					default:
+						m.Quorumcall = true
+					}
+					f.Services[0].Methods = append(f.Services[0].Methods, m)
+				}
+			}
+		}
+	}
+
 	// corruptions
 	switch mode {
 	case 1:
